@@ -622,6 +622,11 @@ func (f *Frame) applyContract(in ssa.Instruction, cc *ssa.CallCommon, callee *ss
 					prefix := "H|" + typeKey(pt.Elem()) + "|"
 					f.pointwise[prefix] = append(f.pointwise[prefix], args[i][0])
 				}
+				if sl, ok := callee.Params[i].Type().Underlying().(*types.Slice); ok {
+					// a slice parameter: only its backing array changes
+					prefix := "A|" + elemKey(sl.Elem()) + "|"
+					f.pointwise[prefix] = append(f.pointwise[prefix], args[i][0])
+				}
 			}
 		}
 		if blk.Flags["trusted"] {
